@@ -1,4 +1,4 @@
-import Hls.Muxer.PathsGet
+import Hls.Muxer.PathsOwn
 /-!
 # C05 — Every advertised URI is fetchable, immutable and consistent with its parts
 
@@ -234,6 +234,19 @@ theorem c05_expired_stays_empty {cfg : Cfg} {st : State} (hr : Reachable cfg st)
         · omega
     exact get_gone hm _ (fun _ _ e => by cases e) (fun _ _ e => by cases e; exact hlt) rfl hl
 
+/-- A segment that has left the window takes its parts with it: if `g` is a window segment of `st` with
+    part `p`, and a later state no longer has a window entry numbered `g.id` (in particular when
+    `g.id < deleteCount` there), then both the segment URI and the part URI return nothing. -/
+theorem c05_expired_parts {cfg : Cfg} {st : State} (hr : Reachable cfg st) (ops : List WriteOp) (si : Nat)
+    (g : Seg) (hg : Entry.seg g ∈ (st.stream si).segments)
+    (hgone : g.id < ((run st ops).stream si).deleteCount) :
+    get (run st ops) (.seg si g.id) = .none ∧ ∀ p ∈ g.parts, get (run st ops) (.part si p.id) = .none := by
+  have hne : ∀ g', Entry.seg g' ∈ ((run st ops).stream si).segments → g'.id ≠ g.id := by
+    intro g' hg' e
+    have := ((hr.run ops).inv.inv.sinv' (InvAt.lt_of_seg hg')).seg_id_lt g' hg'
+    omega
+  exact ⟨get_seg_none (hr.run ops).inv.inv si g.id hne, fun p hp => expired_part_none hr.inv ops hg hp hne⟩
+
 /-! ## 4. Immutability -/
 
 /-- A segment / part URI that returns media content in a reachable state returns, in every later
@@ -411,6 +424,11 @@ example : PathKey.seg 0 7 ∈ listedMedia (mediaPlaylist (llSt 4) 0 false) ∧
 -- c05_expired_stays_empty: hypotheses met at `llSt 20` for segment 7 / part 1
 example : 7 < ((llSt 20).stream 0).nextSegmentID ∧ get (llSt 20) (.seg 0 7) = .none ∧
     1 < ((llSt 20).stream 0).nextPartID ∧ get (llSt 20) (.part 0 1) = .none := by decide +kernel
+
+-- c05_expired_parts: segment 7 (parts 0, 1) is a window segment after 4 writes and 7 < deleteCount after 22
+example : (((llSt 4).stream 0).segments.any fun e => match e with
+      | .seg g => g.id == 7 && g.parts.map (·.id) == [0, 1] | .gap _ => false) = true ∧
+    7 < ((run (llSt 4) (vOps 4 18)).stream 0).deleteCount := by decide +kernel
 
 -- c05_immutable / c05_immutable_listed: segment 12 and part 16 are listed after 18 writes and still after 4 more
 example : PathKey.seg 0 12 ∈ listedMedia (mediaPlaylist (llSt 18) 0 false) ∧
